@@ -8,6 +8,9 @@
 //	{"k":"method","m":"I64","args":[V...],"retv":P}
 //	      a method of the registered struct T (vm.RegisterReflectClass) called through
 //	      node.NewObjectMethod on a fresh instance
+//	{"k":"ctor","args":[V...]}                new C17K(args) (node.NewNewExpression): the reflected constructor stores
+//	      the i-th argument into the i-th public field (S string, I int, I64 int64, F float64, B bool, N int8);
+//	      "got" = the fields afterwards, recorded by the instance's method Dump
 //	{"k":"generic","t":"int8","v":V}          utils.ConvertFromIndex[T](ctx, 0)
 //	{"k":"f32","bits":[...]}                  oracle: float64 -> float32 -> float64 of each value
 //	{"k":"conc","mode":"go"|"gomethod"|"spawn"|"spawnmethod","workers":W,"iters":N}
@@ -355,6 +358,30 @@ func (t *T) I8U8(a int8, b uint8) int8 {
 	return build(kinds["int8"], tret).Interface().(int8)
 }
 
+// ---- the reflected constructor: new C17K(a0, a1, ..) stores the i-th argument into the i-th public field
+type K struct {
+	S   string
+	I   int
+	I64 int64
+	F   float64
+	B   bool
+}
+
+// Dump records the fields as this instance holds them
+func (k *K) Dump() { rec(k.S, k.I, k.I64, k.F, k.B) }
+
+// K6: the same with a field of a kind the constructor cannot set
+type K6 struct {
+	S   string
+	I   int
+	I64 int64
+	F   float64
+	B   bool
+	N   int8
+}
+
+func (k *K6) Dump() { rec(k.S, k.I, k.I64, k.F, k.B, k.N) }
+
 // ---- concurrent callers
 var (
 	cCalls, cBad atomic.Int64
@@ -645,6 +672,29 @@ func runCase(c Case) (o Obs) {
 		res.Got = tlog
 		res.Orc = oracleFor(c.Args)
 		return res
+	case "ctor":
+		args := make([]data.GetValue, len(c.Args))
+		for i, a := range c.Args {
+			args[i] = mk(a)
+		}
+		tlog = nil
+		cls := "C17K"
+		if c.M == "K6" {
+			cls = "C17K6"
+		}
+		inst, ctl := node.NewNewExpression(from, cls, args).GetValue(ctx)
+		res := Obs{Orc: oracleFor(c.Args)}
+		if ctl != nil {
+			r := finish(inst, ctl)
+			res.Out, res.Msg = r.Out, r.Msg
+			return res
+		}
+		if _, ctl2 := node.NewObjectMethod(from, inst, "Dump", nil).GetValue(ctx); ctl2 != nil {
+			return Obs{Out: "panic", Msg: "Dump: " + ctl2.AsString()}
+		}
+		res.Out = "nil"
+		res.Got = tlog
+		return res
 	case "conc":
 		return runConc(c)
 	case "generic":
@@ -682,6 +732,14 @@ func main() {
 	}
 	if ctl := vm.RegisterFunction("c17triple", triple); ctl != nil {
 		fmt.Fprintln(os.Stderr, "register c17triple:", ctl.AsString())
+		os.Exit(2)
+	}
+	if ctl := vm.RegisterReflectClass("C17K6", &K6{}); ctl != nil {
+		fmt.Fprintln(os.Stderr, "register class C17K6:", ctl.AsString())
+		os.Exit(2)
+	}
+	if ctl := vm.RegisterReflectClass("C17K", &K{}); ctl != nil {
+		fmt.Fprintln(os.Stderr, "register class C17K:", ctl.AsString())
 		os.Exit(2)
 	}
 	if ctl := vm.RegisterReflectClass("C17TC", &TC{}); ctl != nil {
